@@ -1,15 +1,402 @@
 /-
-Driver.GenSuite — suite `gen` (stub: replaced by the owner of the suite).
-Must define `genLine : String → String` (case line ↦ model observation line) and
-`genPred : String → String → String → String` (property id, case line, implementation
-observation line ↦ "ok" | "fail <reason>").
+Driver.GenSuite — suite `gen` (C08, C09): parses the case lines of harness/src/suites/gen.rs,
+prints the model's observation (`genLine`) and evaluates the property predicates on the
+implementation's observation (`genPred`).  Driver glue: `partial` is fine here.
 -/
 import Driver.Sx
+import VarlinkVerif.Model.Gen
+import VarlinkVerif.Model.GenEmit
+import VarlinkVerif.Pred.Gen
 
 namespace VV
+open Gen
 
-def genLine (_line : String) : String := "(stub)"
+namespace GenDrv
 
-def genPred (_prop _caseLine _obsLine : String) : String := "fail stub-suite"
+partial def parseTy : Sx → Option Ty
+  | .atom "bool" => some .bool
+  | .atom "int" => some .int
+  | .atom "float" => some .float
+  | .atom "string" => some .string
+  | .atom "object" => some .object
+  | .list [.atom "ref", n] => (Sx.asStr n).map .ref
+  | .list (.atom "st" :: fs) => (fs.mapM parseField).map .struct
+  | .list (.atom "en" :: vs) => (vs.mapM Sx.asStr).map .enum
+  | .list [.atom "arr", t] => (parseTy t).map .arr
+  | .list [.atom "map", t] => (parseTy t).map .map
+  | .list [.atom "opt", t] => (parseTy t).map .opt
+  | _ => none
+where
+  parseField : Sx → Option (String × Ty)
+    | .list [n, t] => do
+      let n ← Sx.asStr n
+      let t ← parseTy t
+      pure (n, t)
+    | _ => none
+
+def parseFields : Sx → Option (List (String × Ty))
+  | .list (.atom "F" :: fs) => fs.mapM fun f => match f with
+    | .list [n, t] => do
+      let n ← Sx.asStr n
+      let t ← parseTy t
+      pure (n, t)
+    | _ => none
+  | _ => none
+
+def parseIdl : Sx → Option IDL
+  | .list [.atom "idl", n, .list (.atom "T" :: ts), .list (.atom "M" :: ms), .list (.atom "E" :: es)] => do
+    let n ← Sx.asStr n
+    let ts ← ts.mapM fun t => match t with
+      | .list [tn, d] => do
+        let tn ← Sx.asStr tn
+        let d ← parseTy d
+        pure (tn, d)
+      | _ => none
+    let ms ← ms.mapM fun m => match m with
+      | .list [mn, i, o] => do
+        let mn ← Sx.asStr mn
+        let i ← parseFields i
+        let o ← parseFields o
+        pure ({ name := mn, input := i, output := o } : Method)
+      | _ => none
+    let es ← es.mapM fun e => match e with
+      | .list [en, p] => do
+        let en ← Sx.asStr en
+        let p ← parseFields p
+        pure ({ name := en, parm := p } : ErrorDef)
+      | _ => none
+    pure { name := n, types := ts, methods := ms, errors := es }
+  | _ => none
+
+/-- `(src x<text> P)`: `some (some idl)` accepted, `some none` rejected (with kind), `none` malformed -/
+def parseSrc : Sx → Option (Option IDL × String)
+  | .list [.atom "src", _, .list [.atom "rej", .atom k]] => some (none, k)
+  | .list [.atom "src", _, p] => (parseIdl p).map fun i => (some i, "")
+  | _ => none
+
+partial def parseVal : Sx → Option Val
+  | .list [.atom "b", .atom "t"] => some (.bool true)
+  | .list [.atom "b", .atom "f"] => some (.bool false)
+  | .list [.atom "i", v] => (Sx.asInt v).map .int
+  | .list [.atom "f", v] => (Sx.asNat v).map .flt
+  | .list [.atom "s", v] => (Sx.asStr v).map .str
+  | .list [.atom "j", v] => (Sx.toJson v).map .json
+  | .list [.atom "none"] => some .none
+  | .list [.atom "some", v] => (parseVal v).map .some
+  | .list (.atom "arr" :: vs) => (vs.mapM parseVal).map .arr
+  | .list (.atom "map" :: kvs) => (kvs.mapM parseKV).map .map
+  | .list (.atom "rec" :: kvs) => (kvs.mapM parseKV).map .record
+  | .list (.atom "set" :: ks) => (ks.mapM Sx.asStr).map .set
+  | .list [.atom "en", v] => (Sx.asStr v).map .enum
+  | _ => none
+where
+  parseKV : Sx → Option (String × Val)
+    | .list [k, v] => do
+      let k ← Sx.asStr k
+      let v ← parseVal v
+      pure (k, v)
+    | _ => none
+
+def parseAction : Sx → Option Action
+  | .list [.atom "reply", c, v] => do
+    let v ← parseVal v
+    pure (.reply (c matches .atom "t") v)
+  | .list [.atom "error", e, v] => do
+    let e ← Sx.asStr e
+    let v ← parseVal v
+    pure (.error e v)
+  | _ => none
+
+def parseMode : Sx → Option Mode
+  | .atom "call" => some .call
+  | .atom "more" => some .more
+  | .atom "oneway" => some .oneway
+  | _ => none
+
+/-! canonical JSON: keys sorted (UTF-8 byte order = code point order) -/
+partial def canon : Json → Json
+  | .arr l => .arr (l.map canon)
+  | .obj l => .obj ((l.map fun (k, v) => (k, canon v)).mergeSort fun a b => a.1 ≤ b.1)
+  | j => j
+
+def jx (j : Json) : Sx := Sx.ofJson (canon j)
+
+def tagged (t : String) (l : List Sx) : Sx := .list (.atom t :: l)
+
+/-! resolving the emitted type a probe case names: root + field path -/
+def stripToAnon : Ty → Option Ty
+  | .struct fs => some (.struct fs)
+  | .enum vs => some (.enum vs)
+  | .arr t => stripToAnon t
+  | .opt t => stripToAnon t
+  | .map t => match t with
+    | .struct [] => none
+    | _ => stripToAnon t
+  | _ => none
+
+def walkPath : Ty → List String → Option Ty
+  | t, [] => some t
+  | .struct fs, f :: rest =>
+    match lookupTy f fs with
+    | some ft => (stripToAnon ft).bind fun a => walkPath a rest
+    | none => none
+  | _, _ => none
+
+/-- (type, is a top-level Args/Reply/error-args struct) -/
+def probeType (i : IDL) (root : Sx) (path : List String) : Option (Ty × Bool) :=
+  let start : Option (Ty × Bool) := match root with
+    | .list [.atom "t", n] => (Sx.asStr n).bind fun n => (lookupTy n i.types).map fun d => (d, false)
+    | .list [.atom "in", n] => (Sx.asStr n).bind fun n => (i.methods.find? (·.name == n)).map fun m => (Ty.struct m.input, true)
+    | .list [.atom "out", n] => (Sx.asStr n).bind fun n => (i.methods.find? (·.name == n)).map fun m => (Ty.struct m.output, true)
+    | .list [.atom "err", n] => (Sx.asStr n).bind fun n => (i.errors.find? (·.name == n)).map fun e => (Ty.struct e.parm, true)
+    | _ => none
+  start.bind fun (t, top) => (walkPath t path).map fun t' => (t', top && path.isEmpty)
+
+def probeModel (i : IDL) (t : Ty) (top : Bool) (j : Json) : Option Json :=
+  (decode i.env t j).map fun v => if top then encodeTop v else encode v
+
+/-! model observations -/
+
+def sortStrs (l : List String) : List String := l.mergeSort fun a b => a ≤ b
+
+def compileLine (src : Option IDL × String) : Sx :=
+  match src with
+  | (none, k) => tagged "compile" [tagged "rej" [.atom k]]
+  | (some i, _) =>
+    match verdict i with
+    | .panic => tagged "compile" [.atom "panic"]
+    | v =>
+      let e := emit i
+      let items := e.items.mergeSort fun a b => a.2 < b.2 || (a.2 == b.2 && a.1 ≤ b.1)
+      let traits := e.traitFns.mergeSort fun a b => a.1 ≤ b.1
+      tagged "compile" [
+        .atom "ok",
+        tagged "rustc" [match v with
+          | .rustcFail c => tagged "fail" [.atom c]
+          | _ => .atom "ok"],
+        tagged "items" (items.map fun (k, n) => .list [.atom k, Sx.strAtom n]),
+        tagged "fns" (traits.map fun (t, fs) => .list (Sx.strAtom t :: (sortStrs fs).map Sx.strAtom))]
+
+def clientSx : ClientObs → Sx
+  | .ok eq j => tagged "ok" [Sx.ofBool eq, jx j]
+  | .err e eq => tagged "err" [Sx.strAtom e, Sx.ofBool eq]
+  | .verr k => tagged "verr" [.atom k]
+  | .okOneway => .atom "ok-oneway"
+
+def callObsSx (o : CallObs) : Sx :=
+  tagged "call" [
+    tagged "req" (o.req.map jx),
+    tagged "seen" (o.seen.map Sx.ofBool),
+    tagged "wire" (o.wire.map jx),
+    tagged "client" (o.client.map clientSx),
+    tagged "srv" [.atom (if o.srvOk then "ok" else "err")]]
+
+def lastDot (s : String) : Option (String × String) :=
+  let cs := s.toList
+  let suffix := (cs.reverse.takeWhile (· != '.')).reverse
+  if suffix.length = cs.length then none
+  else some (String.ofList (cs.take (cs.length - suffix.length - 1)), String.ofList suffix)
+
+def optBoolOk : Option Json → Bool
+  | none => true
+  | some .null => true
+  | some (.bool _) => true
+  | _ => false
+
+/-- `VarlinkService::handle` on one raw request with the recording implementation's fallback
+    (`reply_method_not_implemented`) -/
+def rawModel (i : IDL) (req : Json) : RawObs :=
+  match req with
+  | .obj _ =>
+    if !(optBoolOk (req.get? "more") && optBoolOk (req.get? "oneway") && optBoolOk (req.get? "upgrade")) then
+      { seen := [], wire := [], srvOk := false }
+    else
+    match req.get? "method" with
+    | some (.str full) =>
+      let oneway := (req.get? "oneway") matches some (.bool true)
+      let out (l : List Json) := if oneway then [] else l
+      match lastDot full with
+      | none => { seen := [], wire := out [.obj [("error", .str "org.varlink.service.InterfaceNotFound"), ("parameters", .obj [("interface", .str full)])]], srvOk := true }
+      | some (iface, _) =>
+        if iface != i.name then
+          { seen := [], wire := out [.obj [("error", .str "org.varlink.service.InterfaceNotFound"), ("parameters", .obj [("interface", .str iface)])]], srvOk := true }
+        else
+        match dispatch i full (nonNull (req.get? "parameters")) with
+        | .methodNotFound m => { seen := [], wire := out [errMethodNotFound m], srvOk := true }
+        | .invalidParameter p closes => { seen := [], wire := out [errInvalidParameter p], srvOk := !closes }
+        | .invoke m args => { seen := [(m.name, encodeTop args)], wire := out [errMethodNotImplemented m.name], srvOk := true }
+    | _ => { seen := [], wire := [], srvOk := false }
+  | _ => { seen := [], wire := [], srvOk := false }
+
+def rawObsSx (o : RawObs) : Sx :=
+  tagged "raw" [
+    tagged "seen" (o.seen.map fun (m, j) => .list [Sx.strAtom m, jx j]),
+    tagged "wire" (o.wire.map jx),
+    tagged "srv" [.atom (if o.srvOk then "ok" else "err")]]
+
+def frontLine (which : String) (src : Option IDL × String) : Sx :=
+  match src with
+  | (none, k) => tagged "front" [tagged "rej" [.atom k], .atom "err", .atom "f", .atom "-"]
+  | (some i, _) =>
+    match verdict i with
+    | .panic => tagged "front" [.atom "ok", .atom "panic", .atom "f", .atom "-"]
+    | .rustcFail _ =>
+      if which == "derive" then tagged "front" [.atom "ok", .atom "rustc-fail", .atom "t", .atom "-"]
+      else tagged "front" [.atom "ok", .atom "ok", .atom "t", .atom "t"]
+    | .ok => tagged "front" [.atom "ok", .atom "ok", .atom "t", .atom (if which == "derive" then "-" else "t")]
+
+def modelLine (c : Sx) : Option Sx :=
+  match c with
+  | .list [.atom "compile", src] => (parseSrc src).map compileLine
+  | .list [.atom "front", .atom which, src] => (parseSrc src).map (frontLine which)
+  | .list [.atom "probe", src, root, .list (.atom "path" :: path), j] => do
+    let (i?, _) ← parseSrc src
+    let i ← i?
+    let path ← path.mapM Sx.asStr
+    let j ← Sx.toJson j
+    if verdict i != .ok then pure (tagged "probe" [.atom "nobuild"]) else
+    match probeType i root path with
+    | none => pure (tagged "probe" [.atom "no-such-type"])
+    | some (t, top) =>
+      match probeModel i t top j with
+      | some j' => pure (tagged "probe" [tagged "ok" [jx j']])
+      | none => pure (tagged "probe" [.atom "err"])
+  | .list [.atom "call", src, m, mode, args, .list (.atom "script" :: script)] => do
+    let (i?, _) ← parseSrc src
+    let i ← i?
+    let mn ← Sx.asStr m
+    let mode ← parseMode mode
+    let args ← parseVal args
+    let script ← script.mapM parseAction
+    if verdict i != .ok then pure (tagged "call" [.atom "nobuild"]) else
+    let m ← i.methods.find? (·.name == mn)
+    pure (callObsSx (predictCall i m mode args script))
+  | .list [.atom "raw", src, req] => do
+    let (i?, _) ← parseSrc src
+    let i ← i?
+    let req ← Sx.toJson req
+    if verdict i != .ok then pure (tagged "raw" [.atom "nobuild"]) else
+    pure (rawObsSx (rawModel i req))
+  | _ => none
+
+/-! parsing implementation observations for the predicates -/
+
+def parseClientObs : Sx → Option ClientObs
+  | .list [.atom "ok", eq, j] => (Sx.toJson j).map fun j => .ok (eq matches .atom "t") j
+  | .list [.atom "err", e, eq] => (Sx.asStr e).map fun e => .err e (eq matches .atom "t")
+  | .list [.atom "verr", .atom k] => some (.verr k)
+  | .atom "ok-oneway" => some .okOneway
+  | _ => none
+
+def parseCallObs : Sx → Option CallObs
+  | .list [.atom "call", .list (.atom "req" :: req), .list (.atom "seen" :: seen), .list (.atom "wire" :: wire),
+           .list (.atom "client" :: client), .list [.atom "srv", .atom srv]] => do
+    let req ← req.mapM Sx.toJson
+    let wire ← wire.mapM Sx.toJson
+    let client ← client.mapM parseClientObs
+    pure { req, seen := seen.map (· matches .atom "t"), wire, client, srvOk := srv == "ok" }
+  | _ => none
+
+def parseRawObs : Sx → Option RawObs
+  | .list [.atom "raw", .list (.atom "seen" :: seen), .list (.atom "wire" :: wire), .list [.atom "srv", .atom srv]] => do
+    let seen ← seen.mapM fun s => match s with
+      | .list [m, j] => do
+        let m ← Sx.asStr m
+        let j ← Sx.toJson j
+        pure (m, j)
+      | _ => none
+    let wire ← wire.mapM Sx.toJson
+    pure { seen, wire, srvOk := srv == "ok" }
+  | _ => none
+
+def verdictOf : Option String → String
+  | none => "ok"
+  | some r => "fail " ++ r
+
+def predC08 (c o : Sx) : String :=
+  match c with
+  | .list [.atom "probe", src, root, .list (.atom "path" :: path), j] =>
+    match parseSrc src, path.mapM Sx.asStr, Sx.toJson j with
+    | some (some i, _), some path, some j =>
+      (match probeType i root path, o with
+       | some (t, _), .list [.atom "probe", .list [.atom "ok", j']] =>
+         (match Sx.toJson j' with
+          | some j' => verdictOf (P_C08_probe i.env t j (some j'))
+          | none => "fail unparsable-observation")
+       | some (t, _), .list [.atom "probe", .atom "err"] => verdictOf (P_C08_probe i.env t j none)
+       | _, .list [.atom "probe", .atom "nobuild"] => "ok"
+       | _, _ => "fail unexpected-probe-observation")
+    | _, _, _ => "fail unparsable-case"
+  | .list [.atom "call", src, m, mode, args, .list (.atom "script" :: script)] =>
+    match parseSrc src, Sx.asStr m, parseMode mode, parseVal args, script.mapM parseAction with
+    | some (some i, _), some mn, some mode, some args, some script =>
+      (match o with
+       | .list [.atom "call", .atom "nobuild"] => "ok"
+       | _ =>
+         match i.methods.find? (·.name == mn), parseCallObs o with
+         | some m, some obs => verdictOf (P_C08_call i m mode args script obs)
+         | _, _ => "fail unexpected-call-observation")
+    | _, _, _, _, _ => "fail unparsable-case"
+  | .list [.atom "raw", src, req] =>
+    match parseSrc src, Sx.toJson req with
+    | some (some i, _), some req =>
+      (match o with
+       | .list [.atom "raw", .atom "nobuild"] => "ok"
+       | _ =>
+         match parseRawObs o with
+         | some obs => verdictOf (P_C08_raw i req obs)
+         | none => "fail unexpected-raw-observation")
+    | _, _ => "fail unparsable-case"
+  | .list (.atom "compile" :: _) => "ok"
+  | .list (.atom "front" :: _) => "ok"
+  | _ => "fail unparsable-case"
+
+def predC09 (c o : Sx) : String :=
+  match c with
+  | .list [.atom "compile", src] =>
+    match parseSrc src with
+    | some (none, _) =>
+      (match o with
+       | .list [.atom "compile", .list [.atom "rej", _]] => "ok"
+       | _ => "fail rejected-text-but-generator-did-not-fail")
+    | some (some i, _) =>
+      (match o with
+       | .list [.atom "compile", .atom "panic"] => verdictOf (P_C09_compile i false true none)
+       | .list [.atom "compile", .list [.atom "rej", _]] => verdictOf (P_C09_compile i false false none)
+       | .list (.atom "compile" :: .atom "ok" :: .list [.atom "rustc", r] :: _) =>
+         (match r with
+          | .atom "ok" => verdictOf (P_C09_compile i true false none)
+          | .list [.atom "fail", .atom cat] => verdictOf (P_C09_compile i true false (some cat))
+          | .atom other => "fail " ++ other
+          | _ => "fail unexpected-rustc-observation")
+       | _ => "fail unexpected-compile-observation")
+    | none => "fail unparsable-case"
+  | .list [.atom "front", .atom _, src] =>
+    match parseSrc src, o with
+    | some (i?, _), .list [.atom "front", _, .atom status, .atom emitted, .atom same] =>
+      verdictOf (P_C09_front i? status (emitted == "t") (if same == "-" then none else some (same == "t")))
+    | _, _ => "fail unexpected-front-observation"
+  | .list (.atom "probe" :: _) => "ok"
+  | .list (.atom "call" :: _) => "ok"
+  | .list (.atom "raw" :: _) => "ok"
+  | _ => "fail unparsable-case"
+
+end GenDrv
+
+def genLine (line : String) : String :=
+  match Sx.parse line with
+  | none => "(unparsable)"
+  | some c =>
+    match GenDrv.modelLine c with
+    | some s => Sx.render s
+    | none => "(bad-case)"
+
+def genPred (prop caseLine obsLine : String) : String :=
+  match Sx.parse caseLine, Sx.parse obsLine with
+  | some c, some o =>
+    if prop == "C08" then GenDrv.predC08 c o
+    else if prop == "C09" then GenDrv.predC09 c o
+    else "fail unknown-property"
+  | _, _ => "fail unparsable"
 
 end VV
